@@ -29,14 +29,17 @@
 (* reaches in a response is a slot <<parameter, position, encoding>>.      *)
 (*                                                                         *)
 (* Defects is the set of deviations of the modelled code from the repaired *)
-(* code.  {} is the code with the four candidate repairs.  The code as     *)
-(* found is {"raw_host", "raw_header", "xml_ctrl", "legend_png"}:          *)
+(* code.  {} is the code with the candidate repairs.  The code as found is *)
+(* {"raw_host", "raw_header", "xml_ctrl", "legend_png", "bare_ct"}:        *)
 (*   raw_host    Request.base_url prints the Host / X-Forwarded-Host /     *)
 (*               X-Forwarded-Proto values into capabilities unescaped      *)
 (*   raw_header  request text (FORMAT of an image exception, INFO_FORMAT   *)
 (*               of an empty feature info) becomes a header value as sent  *)
 (*   xml_ctrl    XML exception documents keep characters XML cannot carry  *)
 (*   legend_png  a cached legend is served as PNG under the requested type *)
+(*   bare_ct     the image exception handlers declare the FORMAT parameter *)
+(*               as sent as content type: a bare format name (FORMAT=PNG,  *)
+(*               the WMS 1.0.0 spelling) gives "Content-type: PNG"         *)
 (* The property fails on that variant (checked by TLC, each counterexample *)
 (* is replayed on the real application).  "no_escape" and "no_catch_all"   *)
 (* are hypothetical: they show that the invariants can fail at all.        *)
@@ -49,6 +52,9 @@ CONSTANTS Defects, MaxDev, Ops
 Text   == {"hostile", "unicode", "ctrl"}        \* text in the query string / path: markup, non-latin-1, control
 HText  == {"hostile", "latin1"}                 \* text a server can deliver in a header field
 OptInj == {"opt_hostile", "opt_unicode", "opt_ctrl"}   \* FORMAT=image/png; <text>
+\* FORMAT without "image/": PNG, JPEG (the WMS 1.0.0 names of the configured formats), png (lower case), GIF (a format
+\* PIL writes and the service does not offer).  A bare word that is no format at all is the benign text of T3.
+Bare   == {"bare_png", "bare_jpeg", "bare_lower", "bare_gif"}
 TextOf(c) == CASE c = "opt_hostile" -> "hostile" [] c = "opt_unicode" -> "unicode" [] c = "opt_ctrl" -> "ctrl" [] OTHER -> c
 
 (***************************************************************************)
@@ -66,7 +72,8 @@ WmsMap == [layers |-> <<"valid", "multi", "cachedlayer", "absent", "empty">> \o 
            bbox |-> <<"valid", "dup", "absent", "malformed", "short", "empty", "inverted", "nonfinite">>,
            width |-> <<"valid", "float", "absent", "malformed", "zero", "negative", "nonfinite">>,
            height |-> <<"valid", "absent", "malformed", "zero">>,
-           format |-> <<"png", "jpeg", "gif", "dup", "absent", "opt_hostile", "opt_unicode", "opt_ctrl">> \o T3,
+           format |-> <<"png", "jpeg", "gif", "dup", "absent", "opt_hostile", "opt_unicode", "opt_ctrl",
+                        "bare_png", "bare_jpeg", "bare_lower", "bare_gif">> \o T3,
            exceptions |-> <<"absent", "xml", "inimage", "blank", "hostile">>,
            transparent |-> <<"absent", "true", "hostile">>,
            bgcolor |-> <<"absent", "valid", "hostile">>]
@@ -92,13 +99,17 @@ Dom == [
   wms_mapx   |-> WmsCommon @@ [exceptions |-> <<"inimage", "blank", "xml", "absent", "hostile">>,
                                bbox |-> <<"inverted", "valid", "dup", "absent", "malformed", "short", "empty", "nonfinite">>]
                            @@ WmsMap @@ Hdr,
+  \* GetMap as a WMS 1.0.0 client sends it: WMTVER=1.0.0, REQUEST=map, FORMAT=PNG
+  wms_map100 |-> [version |-> <<"v100", "low", "v111", "v110", "v130", "mid", "high", "absent", "malformed">>,
+                  format |-> <<"bare_png", "bare_jpeg", "bare_lower", "bare_gif", "png", "jpeg", "gif", "dup", "absent", "opt_hostile">> \o T3]
+                           @@ WmsCommon @@ WmsMap @@ Hdr,
   wms_fi     |-> WmsCommon @@ WmsMap @@ [query_layers |-> <<"valid", "cachedlayer", "covered", "absent">> \o T3,
                    x |-> <<"valid", "float", "outside", "absent", "malformed">>, y |-> <<"valid", "absent", "malformed">>,
                    info_format |-> <<"absent", "text", "html", "xml", "gml", "json">> \o T3,
                    feature_count |-> <<"absent", "valid", "malformed">>] @@ Hdr,
   wms_caps   |-> WmsCommon @@ [tiled |-> <<"absent", "true", "hostile">>] @@ Hdr,
   wms_legend |-> WmsCommon @@ [layer |-> <<"valid", "cachedlayer", "absent">> \o T3,
-                   format |-> <<"png", "jpeg", "json", "absent">> \o T3,
+                   format |-> <<"png", "jpeg", "json", "absent", "bare_png">> \o T3,
                    sld_version |-> <<"absent", "valid", "other">> \o T3, scale |-> <<"absent", "valid", "malformed">>,
                    exceptions |-> <<"absent", "xml", "inimage", "blank", "hostile">>,
                    legendcache |-> <<"warm", "cold">>] @@ Hdr,
@@ -182,11 +193,12 @@ WmsCapsCt(v) == IF v \in {"110", "111"} THEN "application/vnd.ogc.wms_xml" ELSE 
 
 \* exception handler of a WMS map-like request: [kind, version, the parameters the image handler reads]
 WmsH(p, v, fmt) == [k |-> "wms", v |-> v, exc |-> G(p, "exceptions"), fmt |-> fmt, width |-> G(p, "width"), height |-> G(p, "height"),
-                    bgcolor |-> G(p, "bgcolor"), prevent |-> FALSE]
+                    bgcolor |-> G(p, "bgcolor"), transparent |-> G(p, "transparent"), prevent |-> FALSE]
 FmtOf(p) == IF "format" \in DOMAIN p THEN p.format ELSE "absent"
 
+MapOps == {"wms_map", "wms_mapx", "wms_map100"}
 WmsMissing(op, p, v) ==
-  LET need == CASE op \in {"wms_map", "wms_mapx"} -> {"layers", "styles", "srs", "bbox", "width", "height", "format"}
+  LET need == CASE op \in MapOps -> {"layers", "styles", "srs", "bbox", "width", "height", "format"}
                 [] op = "wms_fi" -> {"layers", "srs", "bbox", "width", "height", "query_layers", "x", "y"}
                 [] op = "wms_legend" -> {"layer", "format"}
                 [] OTHER -> {}
@@ -209,17 +221,21 @@ WmsValidate(op, p, v) ==
 
 SizeBad(p) == p.width \in {"malformed", "nonfinite"} \/ p.height = "malformed"
 ImgCt(f) == IF f = "jpeg" THEN "image/jpeg" ELSE "image/png"
+\* params['format'] after validate_format(): WMS100MapRequest maps the upper-case names of the configured formats
+\* (PNG, JPEG) to their mime types; every other request class compares the parameter with the mime types as it is
+FmtAfter(f, v) == IF v = "100" THEN (CASE f = "bare_png" -> "png" [] f = "bare_jpeg" -> "jpeg" [] OTHER -> f) ELSE f
 
 WmsMapHandle(p, v) ==
-  LET h(f) == WmsH(p, v, f) IN
+  LET h(f) == WmsH(p, v, f)
+      fm == FmtAfter(p.format, v) IN
   IF SizeBad(p) THEN {Raise}
-  ELSE IF p.layers \in Text \cup {"empty"} THEN {Err(h(p.format), "LayerNotDefined", Ech(p, "layers"), 0)}
-  ELSE IF p.format \notin {"png", "jpeg"} THEN {Err(h("png"), "InvalidFormat", Ech(p, "format"), 0)}
-  ELSE IF p.srs \in Text \cup {"unconfigured"} THEN {Err(h(p.format), IF v = "130" THEN "InvalidCRS" ELSE "InvalidSRS", Ech(p, "srs"), 0)}
-  ELSE LET ok == Ok(200, ImgCt(p.format), "image", "none", "req", {})
+  ELSE IF p.layers \in Text \cup {"empty"} THEN {Err(h(p.format), "LayerNotDefined", Ech(p, "layers"), 0)}      \* FORMAT still as sent
+  ELSE IF fm \notin {"png", "jpeg"} THEN {Err(h("png"), "InvalidFormat", Ech(p, "format"), 0)}
+  ELSE IF p.srs \in Text \cup {"unconfigured"} THEN {Err(h(fm), IF v = "130" THEN "InvalidCRS" ELSE "InvalidSRS", Ech(p, "srs"), 0)}
+  ELSE LET ok == Ok(200, ImgCt(fm), "image", "none", "req", {})
            odd == p.width \in {"zero", "negative"} \/ p.height = "zero"
-       IN (IF odd THEN {Err(h(p.format), "none", {}, 0), Raise} ELSE {ok})
-          \cup (IF p.bbox = "nonfinite" THEN {Err(h(p.format), "none", {}, 0), Raise} ELSE {})
+       IN (IF odd THEN {Err(h(fm), "none", {}, 0), Raise} ELSE {ok})
+          \cup (IF p.bbox = "nonfinite" THEN {Err(h(fm), "none", {}, 0), Raise} ELSE {})
           \cup (IF p.bgcolor = "hostile" THEN {Raise} ELSE {})
 
 InfoCt(f, v) == CASE f = "html" -> "text/html; charset=utf-8"
@@ -250,7 +266,7 @@ WmsLegendHandle(p, v) ==
   LET h == WmsH(p, v, p.format) IN
   IF p.layer \in Text THEN {Err(h, "LayerNotDefined", Ech(p, "layer"), 0)}
   ELSE IF p.scale = "malformed" THEN {Raise}
-  ELSE IF p.format \in Text THEN {Raise}
+  ELSE IF p.format \in Text \cup Bare THEN {Raise}                      \* self.image_formats[<FORMAT as sent>]: KeyError
   ELSE IF p.format = "json" THEN {Ok(200, "application/json", "text", "none", "none", {}), Raise}
   \* the legend cache keeps PNG files: a cached legend is served as it is stored (cache/legend.py LegendCache.load)
   ELSE IF p.format = "jpeg" /\ p.legendcache = "warm" /\ "legend_png" \in Defects
@@ -272,7 +288,7 @@ WmsParse(op, p) ==
 
 WmsHandle(op, p) ==
   LET v == V(p.version) IN
-  CASE op \in {"wms_map", "wms_mapx"} -> WmsMapHandle(p, v)
+  CASE op \in MapOps -> WmsMapHandle(p, v)
     [] op = "wms_fi" -> WmsFiHandle(p, v)
     [] op = "wms_legend" -> WmsLegendHandle(p, v)
     [] OTHER -> WmsCaps(p, v)
@@ -402,7 +418,7 @@ DemoHandle(op, p) ==
 VARIABLES req, pc, out, resp
 vars == <<req, pc, out, resp>>
 
-Svc(op) == CASE op \in {"wms_map", "wms_mapx", "wms_fi", "wms_caps", "wms_legend", "wms_other"} -> "wms"
+Svc(op) == CASE op \in {"wms_map", "wms_mapx", "wms_map100", "wms_fi", "wms_caps", "wms_legend", "wms_other"} -> "wms"
              [] op \in {"wmts_tile", "wmts_fi", "wmts_caps", "wmts_other"} -> "wmts"
              [] op \in {"rest_tile", "rest_fi", "rest_caps", "rest_other"} -> "rest"
              [] op \in {"tms_tile", "tms_root", "tms_caps", "tms_layer", "tms_other"} -> "tms"
@@ -480,8 +496,15 @@ ImageError(h) ==
   LET sizes == IF h.width = "absent" \/ h.height = "absent" THEN {"t256"}
                ELSE IF h.width \in {"malformed", "nonfinite", "zero", "negative"} \/ h.height \in {"malformed", "zero"} THEN {}
                ELSE {"req"}
+      \* ImageOptions(format=<name as sent>): img_to_buf compares the name with 'jpeg' before it drops the alpha channel,
+      \* PIL does not write an RGBA image as JPEG
+      rgba == h.fmt = "bare_jpeg" /\ h.transparent = "true"
+      \* Response(..., content_type=params.format_mime_type): the parameter as sent
+      bare == IF "bare_ct" \in Defects
+                THEN CASE h.fmt = "bare_png" -> "PNG" [] h.fmt = "bare_jpeg" -> "JPEG" [] h.fmt = "bare_lower" -> "png" [] OTHER -> "GIF"
+                ELSE CASE h.fmt = "bare_jpeg" -> "image/jpeg" [] h.fmt = "bare_gif" -> "image/gif" [] OTHER -> "image/png"
       cts == CASE h.fmt \in {"png", "dup"} -> {"image/png"} [] h.fmt = "jpeg" -> {"image/jpeg"} [] h.fmt = "gif" -> {"image/gif"}
-               [] h.fmt \in OptInj -> {"tainted"} [] OTHER -> {}
+               [] h.fmt \in OptInj -> {"tainted"} [] h.fmt \in Bare -> (IF rgba THEN {} ELSE {bare}) [] OTHER -> {}
       slots == IF h.fmt \in OptInj THEN {<<"format", TextOf(h.fmt), "header", "raw">>} ELSE {}
   IN {Ok(200, ct, "image", "none", sz, slots) : ct \in cts, sz \in sizes}
      \cup (IF sizes = {} \/ cts = {} \/ h.fmt \in OptInj \cup {"gif"} \/ h.bgcolor = "hostile" THEN {Raise} ELSE {})
@@ -520,6 +543,9 @@ CatchAll ==
 HeaderBad(slots) == "raw_header" \in Defects /\ \E s \in slots : s[3] = "header" /\ s[4] = "raw" /\ s[2] \in {"unicode", "ctrl"}
 XmlBad(slots) == "xml_ctrl" \in Defects /\ \E s \in slots : s[3] = "chardata" /\ s[4] = "xml" /\ s[2] = "ctrl"
 ImageBad(slots) == \E s \in slots : s[3] = "imagebytes"
+\* the declared type of an image is a media type (type "/" subtype) of an image: what Content-type says is what the body is
+MediaTypes == {"image/png", "image/jpeg", "image/gif"}
+CtBad(o) == o.kind = "image" /\ o.ct \notin MediaTypes \cup {"tainted"}         \* tainted: image/png; <request text>
 MarkupBad(slots) == \E s \in slots : s[3] \in {"chardata", "attr", "script"} /\ s[4] = "raw" /\ s[2] \in {"hostile", "latin1", "unicode"}
 
 Send ==
@@ -527,7 +553,8 @@ Send ==
   /\ resp' = [raised |-> "no", st |-> out.st, ct |-> out.ct, kind |-> out.kind, skel |-> out.skel, code |-> out.code, size |-> out.size,
               slots |-> out.slots,
               bad |-> (IF HeaderBad(out.slots) THEN {"header"} ELSE {}) \cup (IF XmlBad(out.slots) THEN {"xml"} ELSE {})
-                      \cup (IF MarkupBad(out.slots) THEN {"markup"} ELSE {}) \cup (IF ImageBad(out.slots) THEN {"image"} ELSE {})]
+                      \cup (IF MarkupBad(out.slots) THEN {"markup"} ELSE {}) \cup (IF ImageBad(out.slots) THEN {"image"} ELSE {})
+                      \cup (IF CtBad(out) THEN {"ctype"} ELSE {})]
   /\ pc' = "sent" /\ out' = None
   /\ UNCHANGED req
 
@@ -542,7 +569,8 @@ AlwaysResponds == Done => resp.raised = "no" /\ resp.st \in 200 .. 599 /\ "heade
 MarkupFixed == Done => "markup" \notin resp.bad /\ "xml" \notin resp.bad
                        /\ \A s \in resp.slots : s[3] \in {"chardata", "attr", "script"} => s[4] # "raw"
 NoLeak == Done => \A s \in resp.slots : s[1] # "exception"         \* no text of an internal exception reaches the client
-ImageOK == Done /\ resp.kind = "image" => "image" \notin resp.bad /\ resp.ct \in {"image/png", "image/jpeg", "image/gif", "tainted"} /\ resp.size # "none"
+ImageOK == Done /\ resp.kind = "image" => /\ "image" \notin resp.bad /\ "ctype" \notin resp.bad
+                                         /\ resp.ct \in MediaTypes \cup {"tainted"} /\ resp.size # "none"
 NoStuck == pc # "sent" => ENABLED Next
 TypeOK == /\ pc \in {"wsgiapp", "ows", "parse", "validate", "handle", "error", "raised", "send", "sent"}
           /\ out.t \in {"none", "ok", "err", "errnoreq", "raise"}
